@@ -62,9 +62,9 @@ def depth(f):
     return 0
 
 
-def check_one(f):
+def check_one(f, as_bytearray=False):
     out = []
-    obj = av.b_filter(av.fresh(f))  # the tree owns its values: they die with it
+    obj = av.b_filter(av.fresh(f, as_bytearray))  # the tree owns its values: they die with it
     try:
         s = str(obj)
     except Exception as e:
@@ -154,7 +154,14 @@ def run_shard(ctx: Ctx, acc: Acc):
             acc.sample({"tree": f, "text": str(av.b_filter(f))})
         for key, what in check_one(f):
             acc.violation(key, what, {"tree": f})
+        if i % 8 == 3:
+            acc.case()
+            acc.count("values-held-in-bytearrays")
+            for key, what in check_one(f, True):
+                acc.violation(key, what + " [values held in bytearrays]", {"tree": f, "as_bytearray": True})
 
 
 def replay(w):
+    if w.get("as_bytearray"):
+        return check_one(to_tuple(w["tree"]), True)
     return check_one(to_tuple(w["tree"]))
